@@ -4,7 +4,7 @@ let dispatch = function
   | "cc_wu" -> let w = next_mat next_q in p_list p_q (run_cc_wu w)
   | "cc_wd" -> let w = next_mat next_q in p_list p_q (run_cc_wd w)
   | "cc_sign" -> let w = next_mat next_q in let ty = next_nat () in
-      p_pair (p_list p_q) (p_list p_q) (run_cc_sign w ty)
+      p_opt (p_pair (p_list p_q) (p_list p_q)) (run_cc_sign w ty)
   | "trans" -> let w = next_mat next_q in let k = next_nat () in p_opt p_q (run_trans w k)
   | "cbrt" -> let x = next_q () in p_q (run_cbrt x)
   | f -> failwith ("unknown function " ^ f)
